@@ -234,6 +234,7 @@ def case_history(c, res):
                 if thunk is None:
                     continue
                 before_order = dict(sim.b.vars)
+                before_setting = sim.m.configure()['reordering']
                 sim.log.append(('REJECTED', kind))
                 try:
                     try:
@@ -260,6 +261,8 @@ def case_history(c, res):
                     # (with dynamic reordering enabled a call may legitimately reorder before it fails;
                     # the order must then still be a valid bijection, which wf() checks)
                     require(dict(sim.b.vars) == before_order, 'order-unchanged', lambda: f'{before_order} -> {sim.b.vars}')
+                require(sim.m.configure()['reordering'] == before_setting and sim.b._reordering_context is False,
+                        'reordering-setting-unchanged', lambda: f'{before_setting} -> {sim.m.configure()}')
                 sim.check()
                 after_normal(sim, td)
             except Viol as v:
